@@ -85,21 +85,41 @@ def kinds(docs):
     return k
 
 
+_PORT_LOCK = __import__("threading").Lock()
+
+
 class Server:
     def __init__(self):
-        s = socket.socket()
-        s.bind(("127.0.0.1", 0))
-        self.port = s.getsockname()[1]
-        s.close()
-        self.p = subprocess.Popen([SERVER], env=dict(os.environ, PORT=str(self.port)), stdout=subprocess.DEVNULL, stderr=subprocess.DEVNULL)
-        for _ in range(200):
-            try:
-                c = socket.create_connection(("127.0.0.1", self.port), timeout=1)
-                c.close()
-                return
-            except OSError:
-                time.sleep(0.02)
-        raise RuntimeError("server did not start")
+        # one server start at a time: the port is probed, the server started, and only a server
+        # that is both listening and still alive (it exits when the port was taken) is accepted
+        with _PORT_LOCK:
+            last = None
+            for _attempt in range(20):
+                s = socket.socket()
+                s.bind(("127.0.0.1", 0))
+                self.port = s.getsockname()[1]
+                s.close()
+                self.p = subprocess.Popen([SERVER], env=dict(os.environ, PORT=str(self.port)), stdout=subprocess.DEVNULL, stderr=subprocess.DEVNULL)
+                ok = False
+                for _ in range(300):
+                    if self.p.poll() is not None:
+                        break
+                    try:
+                        c = socket.create_connection(("127.0.0.1", self.port), timeout=1)
+                        c.close()
+                        ok = True
+                        break
+                    except OSError as e:
+                        last = e
+                        time.sleep(0.02)
+                if ok and self.p.poll() is None:
+                    return
+                try:
+                    self.p.kill()
+                    self.p.wait()
+                except OSError:
+                    pass
+            raise RuntimeError("server did not start: %r" % (last,))
 
     def alive(self):
         return self.p.poll() is None
@@ -429,4 +449,12 @@ def run_interleaving3(kinds_, order, K, server):
 
 
 if __name__ == "__main__":
-    main()
+    try:
+        main()
+    except SystemExit:
+        raise
+    except BaseException as e:  # never let a harness failure look like a verdict
+        import traceback
+        traceback.print_exc()
+        print("MACHINERY-ERROR: %s: %r" % (os.path.basename(__file__), e))
+        sys.exit(2)
